@@ -368,10 +368,18 @@ def run_property(pid, cfg, tier, seed, replay=None):
                             break
                     st["search_evaluations"] = len(extra)
             if found:
-                path = write_replay(pid, f"{s.name}-{short(found[0])}", {
-                    "kind": "oracle-rejection", "property": pid, "stream": s.name,
-                    "case": found[0], "impl": found[1], "oracle": found[2], "seed": seed,
-                    "found_by": "search after correspondence break", "diverging_case": small}, case=found[0])
+                fkey = found[2].split(" ", 1)[1] if " " in found[2] else found[2]
+
+                def still3(cands, key=fkey):
+                    ii, mm, oo = evaluate(s, cands)
+                    return [x != "ok" and (x.split(" ", 1) + [""])[1] == key for x in oo]
+
+                fsmall = shrink_case(s, found[0], still3)
+                fi, fm, fo = evaluate(s, [fsmall])
+                path = write_replay(pid, f"{s.name}-{short(fsmall)}", {
+                    "kind": "oracle-rejection", "property": pid, "stream": s.name, "key": fkey,
+                    "case": fsmall, "impl": fi[0], "model": fm[0], "oracle": fo[0], "original_case": found[0],
+                    "seed": seed, "found_by": "search after correspondence break", "diverging_case": small}, case=fsmall)
                 violations.append((path, ""))
             else:
                 path = write_replay(pid, f"{s.name}-corr-{short(small)}", {
